@@ -22,14 +22,14 @@ CHECKS = {
         ref="DESIGN.md §3 C02"),
     "C03": dict(
         text="12 dependency forms (&impl, `(&impl)` in parentheses, unused `_: &impl`, &D inline / declared after the const parameters / where-bound / bound by a `for<>` where-predicate, by-value generic / impl, concrete by reference and by value, no_deps) x every "
-             "extra-parameter word <= 1 (quick) / <= 2 (thorough) over 21 symbols {i64, &X elided, &'b X named, T: Bound inline, U where-bound, [u8; N] with const N, impl "
+             "extra-parameter word <= 1 (quick) / <= 2 (thorough) over 22 symbols {i64, &X elided, &'b X named, T: Bound inline, U where-bound, [u8; N] with const N, impl "
              "Trait, &dyn, fn pointer, impl Fn, Box<dyn>, slice, tuple, where-predicates naming 'static / for<> before a fn lifetime or a fn lifetime inside the arguments of a trait bound, outlives-related lifetimes, "
-             "destructuring / mut / wildcard patterns} x container {single fn, one of two fns of a module, next to a twin fn with the same generic parameter names, macro_rules-stamped with the dependency type as a `$d:ty` fragment} x qualifiers {none, async, unsafe, extern \"C\", unsafe extern \"C\", async unsafe} x 10 return kinds (unit, owned, borrowed from deps elided / named, "
+             "destructuring / mut / wildcard patterns, `&mut`} x container {single fn, one of two fns of a module, next to a twin fn with the same generic parameter names, macro_rules-stamped with the dependency type as a `$d:ty` fragment} x qualifiers {none, async, unsafe, extern \"C\", unsafe extern \"C\", async unsafe} x 10 return kinds (unit, owned, borrowed from deps elided / named, "
              "borrowed from an argument named / elided, generic T, Result, Option<&'a>, impl Trait) x options {none, mock_api, mockall, ?Send} x both features (~23k states "
              "in quick). Each state is compiled to a fixpoint (every rustc error attributed to its state, borrowck included) and run; for sync fns the function "
              "and the trait method must both coerce to the one most-general fn-pointer type written by the generator (higher-ranked lifetimes, unsafe / extern "
              "qualifiers), for async fns the Output is ascribed; scope witnesses check that a return borrowed from deps does not depend on the arguments and "
-             "vice versa; the direct and the trait call must return the model's value. Five further programs have type / const parameters that only the body uses.",
+             "vice versa; the direct and the trait call must return the model's value. Six further programs: type / const parameters that only the body uses; a `&'static` reference to a concrete dependency.",
         note=NOTE, technique="bounded-exhaustive enumeration of signatures on the real macro; fixpoint compilation + fn-pointer coercion witnesses + executed client",
         ref="DESIGN.md §3 C03"),
     "C04": dict(
@@ -53,7 +53,7 @@ CHECKS = {
         technique="exhaustive enumeration of concrete-dependency programs on the real macro; executed trace + availability probes vs model",
         ref="DESIGN.md §3 C05"),
     "C06": dict(
-        text="Every method word of length <= 2 (quick) / <= 3 (thorough) over 21 method shapes (provided methods incl. `where Self: Sized` and pattern parameters, macro_rules-stamped hygiene shapes incl. a macro-named method, unsafe / extern methods, the typed receiver `self: &Self`, const-before-type method generics, a method type parameter that no argument mentions, 0-2 arguments incl. same-typed adjacent ones, &str, borrowed "
+        text="Every method word of length <= 2 (quick) / <= 3 (thorough) over 22 method shapes (provided methods incl. `where Self: Sized` and pattern parameters, macro_rules-stamped hygiene shapes incl. a macro-named method, unsafe / extern methods, the typed receiver `self: &Self`, const-before-type method generics, a method type parameter that no argument mentions, 0-2 arguments incl. same-typed adjacent ones, &str, borrowed "
              "returns from arguments and from self, trait-generic and method-generic parameters, four async shapes) x selector {default, Self, ref, Borrow} x "
              "{non-generic, generic, bound+default generic, const-before-type generic} trait x supertrait/where clause x {native async, async_trait} is compiled and run against a tracing provider: one event per call, on "
              "the provider reached through the selected route (address), arguments in order, result unchanged; and `Impl<X>: Trait` is probed at run time "
@@ -62,19 +62,19 @@ CHECKS = {
         technique="bounded-exhaustive enumeration of trait definitions on the real macro; executed trace + runtime availability truth table vs model",
         ref="DESIGN.md §3 C06"),
     "C07": dict(
-        text="Every method word of length <= 2 (quick) / <= 3 (thorough) over 13 shapes (0-2 same-typed arguments, &str, named lifetimes with and without "
-             "the lifetime on the receiver, return borrowed from deps, provided method with Self: Sized, macro_rules-stamped hygiene shape, four async shapes) x {static `delegate_by = Sel`, dynamic `delegate_by = ref` "
+        text="Every method word of length <= 2 (quick) / <= 3 (thorough) over 15 shapes (0-2 same-typed arguments, &str, named lifetimes with and without "
+             "the lifetime on the receiver, return borrowed from deps (plain and with a nested elided lifetime), typed receiver `self: &Self`, provided method with Self: Sized, macro_rules-stamped hygiene shape, four async shapes) x {static `delegate_by = Sel`, dynamic `delegate_by = ref` "
              "(+ async_trait when async)} x 8 assignments of further dependency bounds to the block's fns (0/1/2 bounds, increasing, decreasing, disjoint, two instantiations of one generic trait), "
              "with two competing target types X1/X2 of identical method names selected by AppA/AppB: every call must produce exactly one event, from the "
              "selected target's function of that name, whose deps argument is the caller's &Impl<App> (address + type), arguments in order, result unchanged; "
-             "the block's functions call further (non-blanket) dependencies through deps.",
+             "the block's functions call further (non-blanket) dependencies through deps. Short words are repeated with the impl blocks stamped out by macro_rules (target type as `$t:ty` fragment) next to decoy free functions named like the methods.",
         note=NOTE, technique="bounded-exhaustive enumeration of delegated traits + impl blocks on the real macro; executed trace vs model",
         ref="DESIGN.md §3 C07"),
     "C08": dict(
         text="Every module item word up to the bound (full 31-symbol alphabet: every visibility and every const/async/unsafe/extern "
              "qualifier combination on visible and private fns, structs+impls, nested mods, extern blocks, macro_rules, body-less "
              "declarations, consts with blocks, uses, statics, traits; longer words over a 14-symbol core alphabet) x requested trait "
-             "visibility (none, pub, pub(crate), pub(in path)), plus macro_rules-stamped modules (block / expr / ty / vis / ident / item fragments, item fragments ending in `;`, nested fragments, same-named cfg alternatives) and exporting invocations on the short words, is expanded by the real macro; the method list of the generated trait must equal the model's filter "
+             "visibility (none, pub, pub(crate), pub(in path)), plus macro_rules-stamped modules (block / expr / ty / vis / ident / item fragments, item fragments ending in `;`, nested fragments, same-named cfg alternatives); the alphabet includes `const` and bare-`extern` fns, which are compiled and called too and exporting invocations on the short words, is expanded by the real macro; the method list of the generated trait must equal the model's filter "
              "(visible fn with a body, source order) and, where the word can compile, a client in the parent scope and at crate level "
              "calls every expected method through the re-export.",
         note=NOTE, technique="bounded-exhaustive enumeration of module bodies; structural view of recorded expansion + executed client vs filter model",
@@ -82,7 +82,7 @@ CHECKS = {
     "C09": dict(
         text="The default trait plus every combination of <= 2 (quick) / <= 3 (thorough) deviations over 13 dimensions (attributes above / below entrait, "
              "visibility, unsafe, generics incl. lifetimes / defaults / const, supertraits, where clause, method attributes, parameter attributes, default body, associated "
-             "types, async (native / async_trait), a second method incl. generic and lifetime-carrying ones, 10 option sets incl. delegation targets with their own visibility) is "
+             "types, parameter patterns, async (native / async_trait), a second method incl. generic and lifetime-carrying ones, 10 option sets incl. delegation targets with their own visibility) is "
              "expanded, compiled and run. The emitted trait is diffed field by field (syn) against the trait the macro received - only the documented async "
              "rewrite and macro-owned attributes may differ - and a client that implements the trait relying on default bodies / associated types / "
              "supertraits must compile and compute the values the trait as written gives. The quick tier adds the three-way interactions method attribute x default body x {async, "
@@ -102,7 +102,7 @@ CHECKS = {
         text="(unimock feature on, --cfg test) Every argument word <= 2 (quick) / <= 3 (thorough) over {i64, &str, destructured tuple} x deps {&impl, &D, "
              "no_deps, concrete} x sync/async for single fns, modules of three same-signature fns declared in non-alphabetical order, entraited traits with "
              "three same-signature methods, macro_rules-stamped fns whose parameters differ only in hygiene, a `#[cfg]`-attributed module fn, and the same wiring spelled through "
-             "entrait_export / explicit export / export=false / mockall, and on `unsafe fn` / `?Send` invocations and with a parameter named like the fn: the mock API must resolve under exactly the "
+             "entrait_export / explicit export / export=false / mockall, and on `unsafe fn` / `?Send` invocations and with a parameter named like the fn, and four programs with type parameters of their own (partial-mock path only): the mock API must resolve under exactly the "
              "mock_api name; a clause matching the position-coded arguments answers the call and a clause with permuted arguments does not; on "
              "Unimock::new_partial(()) the ORIGINAL function must run once with the Unimock instance as deps (address + type name), same arguments, same "
              "result as the Impl<T> path; concrete-deps fns and entraited traits must panic with 'cannot be unmocked'.",
@@ -110,7 +110,7 @@ CHECKS = {
         technique="bounded-exhaustive enumeration of mockable programs on the real macro + real unimock; executed trace vs model",
         ref="DESIGN.md §3 C11"),
     "C12": dict(
-        text="6 input modes (fn, mod, entraited trait, trait + static impl block, leaf trait by ref, trait + dyn impl block) x 5 return kinds (unit, owned, "
+        text="7 input modes (fn, fn with a concrete dependency, mod, entraited trait, trait + static impl block, leaf trait by ref, trait + dyn impl block) x 5 return kinds (unit, owned, "
              "borrowed from deps, borrowed from an argument with a named lifetime, generic) x {default, ?Send} x {native, async_trait, async_trait named through a re-export} x {clean body, body "
              "holding an Rc across an await} x {all async, sync companion method} x {required, provided (default-bodied) async method}: every state is compiled; the Output type is ascribed (`output_is::<R,_>`), declared Send-ness is read as a "
              "runtime boolean in a generic context `fn p<D: Tr>(d: &D)`, the future is driven to completion and its value compared; non-Send bodies must "
@@ -121,15 +121,15 @@ CHECKS = {
         ref="DESIGN.md §3 C12"),
     "C13": dict(
         text="Every (input mode, requested visibility, item visibility) program - fn: 10 requested (incl. pub(self), pub(in self), pub(in super), pub(in super::super), pub(in super::super::super), pub(in crate::path)) x 3 fn visibilities, and exporting variants; mod: 7 requested (incl. pub(self), pub(super), pub(in super::super)) x module visibility "
-             "x fn visibility, through the re-export and through the module; trait: 4 trait visibilities x static/ref delegation target x attribute-side "
-             "visibility - x 5 probe scopes (defining scope, parent, grandparent, crate root, a second crate). One probe per unit: it must compile exactly "
+             "x fn visibility, through the re-export and through the module; trait: 5 trait visibilities x static/ref delegation target x attribute-side "
+             "visibility, for the delegation target trait and for the selector trait - x 5 probe scopes (defining scope, parent, grandparent, crate root, a second crate). One probe per unit: it must compile exactly "
              "where Rust's visibility lattice allows it and be rejected with a privacy error elsewhere; the visibility tokens of the emitted trait and "
              "re-export are compared too.",
         note=NOTE, technique="exhaustive enumeration of (program x probe scope) on the real macro; positive and negative compile probes vs visibility-lattice model",
         ref="DESIGN.md §3 C13"),
     "C14": dict(
         text="Bottom-level input mode {fn, mod, entraited trait, trait + static impl block} x sync/async x call-chain depth 1..3 (1..5 thorough) x arity "
-             "0..2 x {elided, named lifetime, two lifetimes with an outlives bound, generic async method, provided method mentioning its own name, method taking `self` by value, mockall + return-position `impl Trait`, `&mut` parameters, explicit `delegate_by = Self`, provided async method awaiting a sibling}: level i of the chain allocates exactly i boxes, the client counts heap allocations "
+             "0..2 x {elided, named lifetime, two lifetimes with an outlives bound, generic async method, provided method mentioning its own name, method taking `self` by value, mockall + return-position `impl Trait`, `&mut` parameters, explicit `delegate_by = Self`, provided async method awaiting a sibling, outlives relation in a where clause}: level i of the chain allocates exactly i boxes, the client counts heap allocations "
              "(counting global allocator, allocation-free executor) around the direct call and around the call through the generated trait; both must "
              "equal d(d+1)/2 and give the same result; the generated part of every recorded expansion must not mention dyn / Box / Pin / async_trait.",
         note=NOTE + " Debug build: Box::new allocates exactly once.",
@@ -137,18 +137,18 @@ CHECKS = {
         ref="DESIGN.md §3 C14"),
     "C15": dict(
         text="(i) every attribute-argument token word up to length 3 (quick) / 4 (thorough) over a 23-token alphabet (option names, values, "
-             "punctuation, keywords, literals, a parenthesised group) on fn, mod, trait and impl items (~50k invocations in quick); (ii) 60 documented-misuse "
+             "punctuation, keywords, literals, a parenthesised group) on fn, mod, trait and impl items (~50k invocations in quick); (ii) 62 documented-misuse "
              "and unsupported-item cases x both macro names, each in its own compiler process; (iii) every trait-method parameter-pattern word "
-             "<= 2 over 10 patterns x {declaration, default body} x 6 delegation kinds (x receiver {&self, none, self, &mut self} on words <= 1); (iii-b) every ordered selection of <= 2 (3) of 11 well-formed options x 4 item kinds x 2 macro names; (iv) fn-signature pattern words x 4 contexts x {f, r#type}; (v) every sequence <= 2 (3) of 10 item shapes (where "
+             "<= 2 over 10 patterns x {declaration, default body} x 6 delegation kinds (x receiver {&self, none, self, &mut self} on words <= 1); (iii-b) every ordered selection of <= 2 (3) of 11 well-formed options x 4 item kinds x 2 macro names, and 10 spellings of the requested visibility on fn / mod items; (iv) fn-signature pattern words x 4 contexts x {f, r#type}; (v) every sequence <= 2 (3) of 10 item shapes (where "
              "clauses with / without trailing comma, lifetime-only dependency bounds, HRTB predicates, async, body-less declarations with and without visibility) inside one module / impl block. For every invocation: no panic record and no `custom attribute "
              "panicked`, the recorded output parses as Rust items, a rejection is reported by rustc inside the invocation's own lines; documented misuses "
              "give their specific message on the line of the offending tokens.",
         note=NOTE, technique="bounded-exhaustive enumeration of attribute token words / item kinds / pattern words through the real macro; diagnostic-channel oracle",
         ref="DESIGN.md §3 C15"),
     "C16": dict(
-        text="Every pattern word up to length 3 (quick) / 4 (thorough) over a 17-symbol pattern alphabet (plain, mut, ref, raw identifier, wildcard, "
+        text="Every pattern word up to length 3 (quick) / 4 (thorough) over a 18-symbol pattern alphabet (plain, mut, ref, raw identifier, wildcard, "
              "tuple, tuple-struct with 1 binding, with binding+wildcard, struct pattern, reference pattern, binding named like the function, bindings "
-             "named like would-be generated names argN/_argN/f_, destructuring whose binding is the function name, the function's name / a would-be generated name in the other raw-or-plain spelling) x {generic deps, no_deps, module fn, "
+             "named like would-be generated names argN/_argN/f_, destructuring whose binding is the function name / starts with an underscore, the function's name / a would-be generated name in the other raw-or-plain spelling) x {generic deps, no_deps, module fn, "
              "impl-block fn, provided method of an entraited trait (default delegation / static delegation target), required method of an entraited trait (identifiers and `_` only), macro_rules-stamped fn with the trait name as macro argument} x fn name {f, r#type, r#g, arg1} is compiled and run; the generated method's parameter list must satisfy the naming specification and "
              "the trait call must forward position-coded arguments positionally.",
         note=NOTE, technique="bounded-exhaustive enumeration of pattern lists on the real macro; specification model + executed trace",
@@ -164,7 +164,7 @@ CHECKS = {
         ref="DESIGN.md §3 C17"),
     "C18": dict(
         text="Every placement word of <= 2 (quick) / <= 3 (thorough) (site, attribute) pairs per input mode - sites: above / below entrait, on a plain / "
-             "destructured / wildcard parameter, on concrete-deps fns, on the module, on a module fn, on the trait, on a trait method (required, async provided, provided with a delegation-target trait), on the impl block, on an impl-block fn; "
+             "destructured / wildcard parameter, on concrete-deps fns, on the module, on a module fn, on the trait, on a trait method (required, async provided, provided with a delegation-target trait), on an `unsafe` module fn, on the impl block, on an impl-block fn; "
              "attributes: doc, allow, inline, must_use, cfg(all()), cfg(any()) (with a body and return type that cannot compile), an identity proc-macro, "
              "a counting proc-macro and the counting macro wrapped in cfg_attr - is compiled and run. Generated traits/impls/methods may carry nothing from the user except mirrored cfg "
              "(mod / impl-block fns) or all method attributes (entraited traits); generated signatures carry no parameter attributes; programs with "
@@ -172,8 +172,8 @@ CHECKS = {
         note=NOTE, technique="bounded-exhaustive enumeration of attribute placements on the real macro; structural view + executed client + helper-macro invocation log",
         ref="DESIGN.md §3 C18"),
     "C19": dict(
-        text="22 programs (every input mode x delegation kind, sync and async, ?Send, by-value, concrete, no_deps, static/dyn/Borrow targets, delegation-target traits carrying the hostile name, provided methods using `self`, async_trait), all invoked by "
-             "absolute path with no imports, x {empty scope, each of 24 local decoy items alone (real imports of Borrow / Deref / IntoFuture / Any / ToOwned .., traits Send/Sync/Sized/Future/AsRef/Borrow/Unpin, structs "
+        text="31 programs (every input mode x delegation kind, sync and async, ?Send, by-value, concrete, no_deps, static/dyn/Borrow targets, delegation-target traits carrying the hostile name, provided methods using `self`, methods named like the helpers the delegation goes through, a supertrait with a same-named method, by-value methods, five mock-deriving programs compiled with the unimock feature and --cfg test, async_trait), all invoked by "
+             "absolute path with no imports, x {empty scope, each of 25 local decoy items alone (real imports of Borrow / Deref / IntoFuture / Any / ToOwned .., a blanket extension trait with methods `as_ref` / `borrow` / `into_inner` / `deref` / `clone`, traits Send/Sync/Sized/Future/AsRef/Borrow/Unpin, structs "
              "Impl/Box/Pin, modules core/entrait/std/alloc/future/marker/convert/borrow, value-namespace unit structs and consts), all decoys together, the "
              "trait itself named Send/Sync/Sized/Future/AsRef/Impl/Box/Unpin, six macro_rules hygiene splits (whole program in a macro body; trait names / every fn, parameter and module "
              "name as macro arguments; both; attribute in the body and item passed in; the reverse)}: each state is compiled and run and must give the model's values and the same "
